@@ -45,9 +45,10 @@ def main():
         "real erbium-dns in a private netns with a scripted upstream: batches of up to 256 UDP queries in flight from distinct "
         "source ports with upstream replies delayed in random permutations, held until half of the burst has reached the upstream, duplicated (UDP and on the shared upstream TCP connection), sent with a wrong id, truncated (TC -> TCP) "
         "or dropped for the first k transmissions (k=0..3, and all); TCP queries one per connection incl. split length prefix / split "
-        "body / slow reader of a 60 KiB reply; bursts of concurrent TCP queries sharing the upstream TCP channel; listeners v4-only, "
+        "body / slow reader of a 60 KiB reply; an upstream TCP reply delivered in two pieces (cut inside / right after the length prefix / mid-body) while further queries arrive in the gap; bursts of concurrent TCP queries sharing the upstream TCP channel; listeners v4-only, "
         "v6-only and dual-stack reached over v4 and v6 on non-default local addresses; per query: exactly one response, id and answer "
-        "are its own, response source = query destination, SERVFAIL (not silence) when the upstream stays silent; "
+        "are its own, response source = query destination, SERVFAIL (not silence) when the upstream stays silent, also on a second server "
+        "whose upstream first answered later and later (2.5 .. 40 s, first transmission only); "
         "distinct = (transport, listener, upstream behaviour, outcome)", floor=100)
     d = base.scratch_dir("c07")
     procs = []
@@ -74,6 +75,9 @@ def main():
             good = dnslib.build_reply(q, answers=ans)
             if pl.kind == "silent":
                 return [("drop",)]
+            if pl.kind == "late":
+                # only the FIRST transmission is ever answered, and late: after the server has retransmitted
+                return [("reply", good, pl.delay)] if nth == 0 else [("drop",)]
             if getattr(pl, "batch", None) is not None:
                 with plans_lock:
                     batch_seen.setdefault(pl.batch, set()).add(case)
@@ -87,6 +91,10 @@ def main():
             if proto == "tcp" and pl.kind == "dup":
                 # the same answer twice on the shared upstream connection while other queries are outstanding
                 return [("reply", good, pl.delay), ("reply", good, pl.delay + 0.03)]
+            if proto == "tcp" and pl.kind == "split":
+                txt = b"".join(bytes([255]) + bytes([65 + (case % 26)]) * 255 for _ in range(max(pl.big, 256) // 256))
+                good = dnslib.build_reply(q, answers=ans + [(qn, 16, 60, txt)])
+                return [("split", good, 0.0, pl.cut, pl.delay)]
             if proto == "tcp":
                 if pl.big:
                     txt = b"".join(bytes([255]) + bytes([65 + (case % 26)]) * 255 for _ in range(pl.big // 256))
@@ -106,14 +114,28 @@ def main():
         ups.append(dnslib.Upstream("127.0.1.1", script, name="u1"))
         conf_path = os.path.join(d, "erbium.conf")
         open(conf_path, "w").write(CONF)
-        p = base.Proc("erbium-dns", [os.path.join(base.BIN, "erbium-dns"), conf_path], d, rust_log="warn")
+        p = base.Proc("erbium-dns", [os.path.join(base.BIN, "erbium-dns"), conf_path], d, rust_log=os.environ.get("C07_RUST_LOG", "warn"))
         procs.append(p)
         if not dnslib.wait_port("127.0.0.53", 53) or not dnslib.wait_port("::1", 5301, family=socket.AF_INET6):
             leg.inconclusive("erbium-dns did not start listening: %s" % p.text()[-400:])
             leg.write(args)
             return
 
+        # a second server with its own upstream, run alongside: an upstream that answers later and later (always just
+        # the first transmission), then falls silent -- whatever the server learnt from the slow replies, silence must
+        # still end in SERVFAIL within the bound
+        ups.append(dnslib.Upstream("127.0.1.2", script, name="u2"))
+        conf2 = os.path.join(d, "erbium2.conf")
+        open(conf2, "w").write(CONF.replace("['127.0.0.53:53', '[fd00::53]:53', '[::]:5301']", "['127.0.0.55:53']").replace("127.0.1.1", "127.0.1.2"))
+        p2 = base.Proc("erbium-dns-2", [os.path.join(base.BIN, "erbium-dns"), conf2], d, rust_log="warn")
+        procs.append(p2)
+        if not dnslib.wait_port("127.0.0.55", 53):
+            leg.inconclusive("second erbium-dns did not start listening: %s" % p2.text()[-400:])
+            leg.write(args)
+            return
+
         listeners = {
+            "second": (socket.AF_INET, ("127.0.0.55", 53), "127.0.0.55"),
             "v4only": (socket.AF_INET, ("127.0.0.53", 53), "127.0.0.53"),
             "v6only": (socket.AF_INET6, ("fd00::53", 53, 0, 0), "fd00::53"),
             "dual-via-v4": (socket.AF_INET, ("127.0.0.54", 5301), "127.0.0.54"),
@@ -121,6 +143,7 @@ def main():
         }
         next_case = [1]
         results = []  # (case, plan, listener, transport, responses[(bytes, from)], err)
+        elapsed = {}
         rlock = threading.Lock()
 
         def new_case(kind, **kw):
@@ -134,12 +157,14 @@ def main():
             fam, dst, _ = listeners[lname]
             qid = rnd.randrange(65536)
             q = dnslib.build_query(qid, "q%d.c07.test" % case, edns=1232)
+            t0 = time.monotonic()
             try:
                 resp = dnslib.udp_query(dst, q, timeout=wait, family=fam, collect_for=1.2)
                 err = None
             except OSError as e:
                 resp, err = [], str(e)
             with rlock:
+                elapsed[case] = time.monotonic() - t0 - (1.2 if resp else 0.0)
                 results.append((case, lname, "udp", qid, resp, err))
 
         def one_tcp(case, lname, wait, **kw):
@@ -156,11 +181,23 @@ def main():
             for t in threads:
                 t.join(timeout=200)
 
+        def slow_then_silent():
+            for dly in ([2.5, 6.0, 15.0, 40.0] if thorough else [2.5, 7.0, 18.0]):
+                c = new_case("late", delay=dly)
+                plans[c].variant = "late"
+                one_udp(c, "second", 100.0)
+            c = new_case("silent")
+            plans[c].variant = "silent-after-late-replies"
+            one_udp(c, "second", 100.0)
+
+        slow_thread = threading.Thread(target=slow_then_silent)
+        slow_thread.start()
+
         # ---- phase A: UDP batches with reordering and faults, per listener
         nbatch = 256 if thorough else 96
         rounds = 3 if thorough else 1
         for rr in range(rounds):
-            for lname in listeners:
+            for lname in [l for l in listeners if l != 'second']:
                 threads = []
                 batch_id = "%s-%d" % (lname, rr)
                 for i in range(nbatch):
@@ -190,7 +227,7 @@ def main():
         import select as _select
         nb = 24
         for rr in range(3 if thorough else 1):
-            for lname in listeners:
+            for lname in [l for l in listeners if l != 'second']:
                 fam, dst, _ = listeners[lname]
                 batch_id = "all-%s-%d" % (lname, rr)
                 socks = []
@@ -228,7 +265,7 @@ def main():
                         results.append((c, lname, "udp", qid, got.get(c, []), None))
                 leg.count("all_held_bursts", 1)
         # ---- phase B: TCP variants
-        for lname in listeners:
+        for lname in [l for l in listeners if l != 'second']:
             threads = []
             for variant in ("plain", "split-prefix", "split-body", "slow-big", "plain", "split-prefix"):
                 if variant == "slow-big":
@@ -244,6 +281,28 @@ def main():
                     threads.append(threading.Thread(target=one_tcp, args=(c, lname, 15.0), kwargs=kw))
                 plans[c].variant = variant
             run_batch(threads)
+        # ---- phase B2: an upstream reply that arrives in two pieces on the shared upstream connection while further
+        # queries for that upstream come in during the gap (cut inside the length prefix, just after it, mid-body)
+        for rnd_i, cut in enumerate([1, 2, 3, 700, 9000] if not thorough else [1, 2, 3, 10, 700, 1400, 4096, 9000, 20000]):
+            lname = ["v4only", "v6only", "dual-via-v4", "dual-via-v6"][rnd_i % 4]
+            threads = []
+            c = new_case("split", delay=0.6, big=12000 if cut < 9000 else 30000)
+            plans[c].cut = cut
+            plans[c].variant = "tcp-reply-in-two-pieces"
+            threads.append(threading.Thread(target=one_tcp, args=(c, lname, 20.0)))
+            threads[0].start()
+            time.sleep(0.25)
+            others = []
+            for k in range(6):
+                c2 = new_case("ok", delay=0.0)
+                plans[c2].variant = "tcp-during-two-piece-reply"
+                t = threading.Thread(target=one_tcp, args=(c2, lname, 20.0))
+                others.append(t)
+                t.start()
+                time.sleep(0.04)
+            for t in threads + others:
+                t.join(timeout=60)
+            leg.count("two_piece_upstream_replies", 1)
         # ---- phase C: bursts of concurrent TCP queries sharing the upstream TCP channel
         bursts = 8 if thorough else 3
         per = 500
@@ -265,7 +324,7 @@ def main():
             one_tcp(c, "v4only", 15.0)
         # ---- phase D: silent upstream / every transmission dropped -> SERVFAIL within bound
         silent_threads = []
-        for lname in (["v4only", "dual-via-v6"] if not thorough else list(listeners)):
+        for lname in (["v4only", "dual-via-v6"] if not thorough else [l for l in listeners if l != 'second']):
             c = new_case("silent")
             silent_threads.append(threading.Thread(target=one_udp, args=(c, lname, 100.0)))
         if thorough:
@@ -273,9 +332,10 @@ def main():
             plans[c].variant = "tcp-silent"
             silent_threads.append(threading.Thread(target=one_tcp, args=(c, "v4only", 170.0)))
         run_batch(silent_threads)
+        slow_thread.join(timeout=450)
 
         # ---- judge the history
-        up_events = ups[0].events
+        up_events = ups[0].events + ups[1].events
         tx_by_name = {}
         for e in up_events:
             if e["kind"] == "query":
@@ -292,6 +352,10 @@ def main():
             leg.max("max_upstream_transmissions", ntx)
             if len(resp) == 0:
                 leg.cls("%s|%s|%s|no-response" % (transport, lname, kind))
+                replay["upstream_events"] = [{k: (v if not isinstance(v, bytes) else v.hex()) for k, v in e.items()} for e in up_events if (e.get("qname") or "").lower() == name][:12]
+                replay["elapsed_s"] = elapsed.get(case)
+                if os.environ.get("C07_RUST_LOG"):
+                    replay["server_log"] = [l[:300] for l in p.text().splitlines() if name in l.lower() or "%x]" % qid in l][:40]
                 sig = "C07/no-response/%s/%s/%s" % (transport, lname, kind if not kind.startswith("drop") else "drop")
                 leg.violation(sig, "query %s over %s to %s (upstream behaviour %s): no response (%s); upstream saw %d transmissions" % (
                     name, transport, lname, kind, err, ntx), replay)
@@ -313,6 +377,7 @@ def main():
                 if src_ip != expect_dst:
                     leg.violation("C07/response-from-wrong-address/%s" % lname, "sent to %s, response came from %s" % (expect_dst, src_ip), replay)
             if pl.kind == "silent":
+                leg.max("max_s_until_servfail_%s" % ("after_late_replies" if kind == "silent-after-late-replies" else "silent_upstream"), int(elapsed.get(case, 0) + 0.999))
                 ok = pr.rcode == SERVFAIL
                 leg.cls("%s|%s|%s|%s" % (transport, lname, kind, "servfail" if ok else "rcode%d" % pr.rcode))
                 if not ok:
@@ -322,6 +387,12 @@ def main():
                 continue
             want = struct.pack(">I", case)
             got = [rd for (n, t, ttl, rd) in pr.answers if t == 1]
+            if pl.kind == "late":
+                leg.count("late_replies_%s" % ("given_up_servfail" if pr.rcode == SERVFAIL else "relayed"), 1)
+            if pl.kind == "late" and pr.rcode == SERVFAIL:
+                # giving up on an upstream that takes this long is the server's right; one response is what counts
+                leg.cls("%s|%s|%s|servfail" % (transport, lname, kind))
+                continue
             if pr.rcode != 0 or want not in got:
                 leg.cls("%s|%s|%s|wrong-answer" % (transport, lname, kind))
                 sig = "C07/not-its-own-answer/%s/%s" % (transport, kind if not kind.startswith("drop") else "drop")
@@ -332,10 +403,11 @@ def main():
             if kind == "slow-big" and len(data) < 59000:
                 leg.violation("C07/big-tcp-reply-cut", "%d octets" % len(data), replay)
         # ---- process health
-        for line in p.panics():
-            leg.violation("C07/handler-panic/%s" % base.panic_signature(line), line.strip(), {"engine": "c07-e2e", "log_line": line})
-        if not p.alive():
-            leg.violation("C07/service-died", p.text()[-500:], {"engine": "c07-e2e"})
+        for pp in (p, p2):
+            for line in pp.panics():
+                leg.violation("C07/handler-panic/%s" % base.panic_signature(line), line.strip(), {"engine": "c07-e2e", "log_line": line})
+            if not pp.alive():
+                leg.violation("C07/service-died", pp.text()[-500:], {"engine": "c07-e2e"})
         leg.count("queries", len(results))
         leg.count("upstream_events", len(up_events))
         # reorder evidence: how far apart arrival and reply order were in UDP batches
